@@ -117,6 +117,22 @@ Example C09_example_judge :
   prop_trace toy_hash toy_root false ex_U ex_ops (trace_of cfg_fixed true ex_U ex_ops cl_empty) [] true 0 = V_ok.
 Proof. vm_compute. reflexivity. Qed.
 
+(** re-delivery of a different block below the head (the executor's rollbackBlocks path): head
+    3, a different block 2 arrives, is executed on top of block 1, then further blocks; the
+    history is well-formed, so [C09_chain_inv] / [C09_lookups] apply: in particular the parent
+    of the re-executed block is the hash of block 1 *)
+Definition ex_r2 := toy_entry [ex_e1] 62 [17] [37] ([], 0).
+Definition ex_r3 := toy_entry [ex_e1; ex_r2] 63 [13; 18] [38; 39] ([(2, [5])], 0).
+Definition ex_ops_reexec := [OPersist ex_e1; OPersist ex_e2; OPersist ex_e3; OReexec ex_r2; OPersist ex_r3; OReopen].
+Example C09_example_reexec :
+  hist_wf toy_hash toy_root true ex_ops_reexec cl_empty [] /\
+  spec_of true ex_ops_reexec = [ex_e1; ex_r2; ex_r3] /\
+  h_parent (b_hdr (e_blk ex_r2)) = b_hash (e_blk ex_e1) /\
+  get_block (run cfg_fixed true ex_ops_reexec cl_empty) 2 true = ROk (e_blk ex_r2) /\
+  get_block_by_hash (run cfg_fixed true ex_ops_reexec cl_empty) (b_hash (e_blk ex_e2)) true = RNotFound /\
+  prop_trace toy_hash toy_root true ex_U ex_ops_reexec (trace_of cfg_fixed true ex_U ex_ops_reexec cl_empty) [] true 0 = V_ok.
+Proof. split; [apply hist_wf_b_spec; vm_compute; reflexivity|]. vm_compute. repeat split; reflexivity. Qed.
+
 (** * Refutations on the faithful flags *)
 
 (** block-height-<h> survives a rollback: after Rollback(2) GetBlockHash(3) still answers *)
